@@ -9,6 +9,9 @@ CHECKS = {
  "C06": dict(
    text="Theorems C06_op / C06_sequence / C06_flushed (closed under the global context): for each of the 18 write operations, every argument in the operand type's range and every buffer fill level, the model of CdnsEncoder extends the output stream by exactly the RFC 8949 preferred encoding (specified independently with div/mod only) and returns its length; by induction for every call sequence. Tie: correspondence run (same call sequences through the real class under ASan/UBSan and through the extracted model, byte- and return-exact) aimed at the proof's case splits (head-size boundaries x fill levels 2048-a) + independent Python reference encoder as oracle.",
    ref="DESIGN.md 3.6", note="The output writer below flush_buffer() is covered by C13-C16."),
+ "C17": dict(
+   text="Theorems C17_offset_exact / C17_add_inverse / C17_compare_lt / C17_compare_le / C17_refuse / C17_rate0 / C17_no_ub / C17_block / C17_block_offsets over a model of Timestamp in Z with the code's int64 arithmetic made explicit (an overflowing signed operation is the distinguished outcome TUB): for every tick rate 1..10^9, all instants below 2^63 ticks and all int64 offsets (INT64_MIN included). C17_block is an invariant by induction over every add history of a block (timed/untimed records in any order). Tie: correspondence (same commands through the real Timestamp / CdnsBlock classes under UBSan and through the extracted model) + Python big-integer oracle.",
+   ref="DESIGN.md 3.17", note="Hypothesis of the theorems: ticks_per_second <= 10^9 and instants < 2^63 ticks (the 'representable range' of the property)."),
 }
 NOT_APPLICABLE = {}   # property id -> reason (none: every property is meant to be decided)
 
